@@ -187,3 +187,43 @@ func VerifHarness_Step(lo, hi, fork uint64) {
 		verifAssert(rec.count("Enter") == rec.count("Exit"), "C18: nested enter/exit balanced")
 	}
 }
+
+func init() {
+	verifHarnesses["VerifHarness_StepCancel"] = VerifHarness_StepCancel
+}
+
+// VerifHarness_StepCancel: a jump instruction executed while another goroutine
+// may call Cancel at any moment (the abort flag's Load answers arbitrarily but
+// monotonically, see the engine's concurrent mode), and with Cancel already called.
+func VerifHarness_StepCancel(opb uint64) {
+	env := newVerifEnv()
+	evm := env.evm
+	op := OpCode(opb)
+	already := verifBool("cancelled.before")
+	if already {
+		evm.Cancel()
+	}
+	depth0 := evm.depth
+	dest, cond := verifU256("dest"), verifU256("cond")
+	words := []uint256.Int{cond, dest}
+	if op == JUMP {
+		words = []uint256.Int{dest}
+	}
+	verifStackHook = func() *Stack { return &Stack{data: words} }
+	gas := verifU64("gas")
+	contract := NewContract(AccountRef(verifAddr("caller")), AccountRef(verifAddr("self")), new(big.Int), gas)
+	contract.Code = []byte{byte(op), byte(JUMPDEST), byte(JUMPDEST), byte(STOP)}
+	evm.tracer.SaveCall(common.Address{}, nil, nil, uint256.NewInt(0), uint256.NewInt(0))
+	cursor0 := evm.tracer.callTree.current
+	ret, err := env.interp.Run(verifCtx, contract, nil, false)
+	verifReach("returned")
+	verifAssert(evm.depth == depth0 && evm.tracer.callTree.current == cursor0 && !env.interp.readOnly, "C17: bookkeeping closed whatever the moment of cancellation")
+	if already && gas >= 100 {
+		taken := op == JUMP || !cond.IsZero()
+		if taken && dest.IsUint64() && (dest.Uint64() == 1 || dest.Uint64() == 2) {
+			verifReach("stopped")
+			verifAssert(err == nil && ret == nil, "C17: a cancelled execution stops at the next jump")
+			verifAssert(gas-contract.Gas <= 20, "C17: a cancelled execution stops promptly (no further instruction is charged)")
+		}
+	}
+}
